@@ -61,6 +61,7 @@ type Worker struct {
 	bus        *refBus
 	model      refz80.Model
 	res        StepResult
+	envReq     *z80.Interrupt
 	// scratch
 	diff []string
 }
@@ -91,6 +92,8 @@ type Case struct {
 	IOY   uint8
 	// IOFixed: the device answers IOX on every port
 	IOFixed bool
+	// Env: 0 normal; 1 refused maskable request pending; 2 CPU.IO == nil; 3 no RETN/RETI handlers
+	Env int
 }
 
 // CaseJSON is the replay-file form of a Case.
@@ -101,6 +104,7 @@ type CaseJSON struct {
 	IOX   uint8             `json:"io_x"`
 	IOY   uint8             `json:"io_y"`
 	IOFix bool              `json:"io_fixed,omitempty"`
+	Env   int               `json:"env,omitempty"`
 	Salt  uint32            `json:"salt"`
 }
 
@@ -192,7 +196,7 @@ func splitFields(s string) []string {
 }
 
 func (cs *Case) toJSON(salt uint32) CaseJSON {
-	j := CaseJSON{Bytes: hexBytes(cs.Bytes), State: stateMap(&cs.S), IOX: cs.IOX, IOY: cs.IOY, IOFix: cs.IOFixed, Salt: salt}
+	j := CaseJSON{Bytes: hexBytes(cs.Bytes), State: stateMap(&cs.S), IOX: cs.IOX, IOY: cs.IOY, IOFix: cs.IOFixed, Env: cs.Env, Salt: salt}
 	if len(cs.Pokes) > 0 {
 		j.Pokes = map[string]string{}
 		for _, p := range cs.Pokes {
@@ -203,7 +207,7 @@ func (cs *Case) toJSON(salt uint32) CaseJSON {
 }
 
 func caseFromJSON(j *CaseJSON) Case {
-	cs := Case{S: parseStateMap(j.State), Bytes: parseHexBytes(j.Bytes), IOX: j.IOX, IOY: j.IOY, IOFixed: j.IOFix}
+	cs := Case{S: parseStateMap(j.State), Bytes: parseHexBytes(j.Bytes), IOX: j.IOX, IOY: j.IOY, IOFixed: j.IOFix, Env: j.Env}
 	for k, v := range j.Pokes {
 		var a uint16
 		fmt.Sscanf(k, "%04X", &a)
@@ -260,6 +264,29 @@ func (w *Worker) setup(cs *Case) {
 	w.cpu.BreakPoints = nil
 	w.cpu.Memory = w.imem
 	w.cpu.IO = w.iio
+	w.cpu.RETNHandler, w.cpu.RETIHandler = &w.retn, &w.reti
+	w.rio.Absent = false
+	w.envReq = nil
+	switch cs.Env {
+	case 1:
+		// a maskable request that must be refused (the lattice forces IFF1 clear): the Step must equal the
+		// Step without a request and the very same request object must still be pending afterwards
+		switch cs.S.IM {
+		case 0:
+			w.envReq = z80.IM0Interrupt(0xFF)
+		case 2:
+			w.envReq = z80.IM2Interrupt(0x40)
+		default:
+			w.envReq = z80.IM1Interrupt()
+		}
+		w.cpu.Interrupt = w.envReq
+	case 2:
+		// no IO device: reads give 0, writes go nowhere (memio.go / cpu.go ioIn, ioOut)
+		w.cpu.IO = nil
+		w.rio.Absent = true
+	case 3:
+		w.cpu.RETNHandler, w.cpu.RETIHandler = nil, nil
+	}
 }
 
 func (w *Worker) stepBothNoSetup(cs *Case) *StepResult {
@@ -317,7 +344,7 @@ func (w *Worker) compare(cs *Case, res *StepResult, aspects int) []string {
 	}
 	exp, got, out := &res.Exp, &res.Got, &res.Out
 	invalid := out.Inst.Kind == refz80.KInvalid
-	if aspects&AspState != 0 && w.cpu.Interrupt == nil {
+	if aspects&AspState != 0 && w.cpu.Interrupt == w.envReq {
 		// fast path: equal under policy?
 		e := *exp
 		if ((got.F^e.F)&(got.F^out.FAlt))&out.FCompare == 0 {
@@ -382,8 +409,12 @@ func (w *Worker) compare(cs *Case, res *StepResult, aspects int) []string {
 		if got.Halt != exp.Halt {
 			d = append(d, fmt.Sprintf("HALT: want %v got %v", exp.Halt, got.Halt))
 		}
-		if w.cpu.Interrupt != nil {
-			d = append(d, "CPU.Interrupt became non-nil")
+		if w.cpu.Interrupt != w.envReq {
+			if w.envReq != nil {
+				d = append(d, "the refused maskable request (IFF1 clear) did not stay pending unchanged")
+			} else {
+				d = append(d, "CPU.Interrupt became non-nil")
+			}
 		}
 	}
 	if aspects&AspI != 0 && got.I != exp.I {
@@ -430,7 +461,7 @@ func (w *Worker) compare(cs *Case, res *StepResult, aspects int) []string {
 			d = append(d, fmt.Sprintf("port log: want %v got %v", fmtPorts(w.rio.Log), fmtPorts(w.iio.Log)))
 		}
 	}
-	if aspects&AspHandlers != 0 {
+	if aspects&AspHandlers != 0 && cs.Env != 3 {
 		if w.retn.n != out.RETN || w.reti.n != out.RETI {
 			d = append(d, fmt.Sprintf("handler notifications: want RETN=%d RETI=%d got RETN=%d RETI=%d", out.RETN, out.RETI, w.retn.n, w.reti.n))
 		}
